@@ -18,9 +18,10 @@ ID = "C13"
 LEVEL = "exploration"
 RULE = (
     "one case = (scorer, fitted data (n, p), cuts array); the box [-2, n+2]^k is enumerated completely for every "
-    "scorer and n <= 6 (quick) / 8 (thorough), as int64 and int32, its non-negative part as uint8, every box "
+    "scorer and n <= 6 (quick) / 11 (thorough), as int64 and int32, its non-negative part as uint8, every box "
     "element also in a 2-row batch with a valid row (both orders, k<=3 or n<=4), plus float / bool / wrong-width "
-    "/ 1-D / 3-D / empty arrays. Non-trivial = the tuple is invalid only because of its bounds or spacing "
+    "/ 1-D / 3-D / empty arrays; plus, on n = 300, every k-tuple over a 16-point boundary lattice around 0, 2^7, 2^8 and n in six "
+    "integer dtypes (narrow dtypes must not wrap around). Non-trivial = the tuple is invalid only because of its bounds or spacing "
     "(i.e. not rejected by dtype/shape checks), or it is valid."
 )
 ASSUMPTIONS = [
@@ -94,27 +95,37 @@ def call(sc, arr):
         return (type(e).__name__, str(e)[:200])
 
 
-def check_scorer(acc, name, n, p, which):
+LATTICE_N = 300
+LATTICE = (-1, 0, 1, 3, 126, 127, 128, 129, 254, 255, 256, 257, 297, 299, 300, 301)
+
+
+def check_scorer(acc, name, n, p, which, lattice=False):
+    """lattice=False: the complete box [-2, n+2]^k.  lattice=True (n = 300): every k-tuple over the boundary lattice
+    LATTICE (around 0, 2^7, 2^8 and n), in int64 / int32 / int16 / uint16 and, where the values fit, uint8 / int8 --
+    narrow dtypes must not wrap around inside the validity arithmetic."""
     make, k, ms, kind = scorers(p)[name]
     X = data(n, p, which)
     key = {"scorer": name}
     base = {"scorer": name, "n": n, "p": p, "data": which}
+    if lattice:
+        base["lattice"] = True
     try:
         sc = make().fit(X)
     except Exception as e:
         acc.violation("fit-raised", base, f"{type(e).__name__}: {e}", key)
         return
-    box = list(itertools.product(range(-2, n + 3), repeat=k))
+    box = list(itertools.product(LATTICE if lattice else range(-2, n + 3), repeat=k))
     good = [t for t in box if valid(t, k, ms, kind, n)]
     good_clean = None
     w = None
     for t in box:
         ok = valid(t, k, ms, kind, n)
         dtype_or_shape_only = False
-        for dt in ("int64", "int32", "uint8"):
-            if dt == "uint8" and min(t) < 0:
+        for dt in (("int64", "int32", "int16", "uint16", "uint8", "int8") if lattice else ("int64", "int32", "uint8")):
+            info = np.iinfo(dt)
+            if min(t) < info.min or max(t) > info.max:
                 continue
-            if dt != "int64" and (n > 5 and k == 4):
+            if not lattice and dt != "int64" and (n > 5 and k == 4):
                 continue
             acc.ev()
             arr = np.array([t], dtype=dt)
@@ -148,7 +159,7 @@ def check_scorer(acc, name, n, p, which):
                 acc.nt()
         acc.outcome("valid" if ok else "invalid")
     # 2-row batches mixing a valid and an invalid row
-    if good_clean is not None and (k <= 3 or n <= 4):
+    if good_clean is not None and (k <= 3 or n <= 4) and not (lattice and k == 3):
         for t in box:
             if valid(t, k, ms, kind, n):
                 continue
@@ -189,12 +200,18 @@ def check_scorer(acc, name, n, p, which):
                     if out.shape != (rows, wcols):
                         acc.violation("wellformed-shape", case, f"{name}: '{mname}' -> shape {out.shape}, expected {(rows, wcols)}", dict(key, malformed=mname))
             acc.nt()
-    acc.sample(dict(base, box=f"[-2,{n+2}]^{k}", n_valid=len(good)), limit=3)
+    acc.sample(dict(base, box=(f"LATTICE^{k}" if lattice else f"[-2,{n+2}]^{k}"), n_valid=len(good)), limit=3)
 
 
 def configs(tier):
-    top = 6 if tier == "quick" else 8
+    top = 6 if tier == "quick" else 11
     out = []
+    for name in scorers(1):
+        k = scorers(1)[name][1]
+        if tier != "quick" or k <= 3 or name == "LocalAnomalyScore(GaussianVarCost)":
+            out.append((name, LATTICE_N, 1, 0, True))
+            if tier != "quick" and "Cov" not in name:
+                out.append((name, LATTICE_N, 2, 0, True))
     for p in (1, 2):
         for name in scorers(p):
             for n in range(1, top + 1):
@@ -203,33 +220,35 @@ def configs(tier):
                         continue
                     if which == 1 and n == top and tier == "quick":
                         continue
-                    out.append((name, n, p, which))
+                    out.append((name, n, p, which, False))
     return out
 
 
 def shards(tier, seed):
     cf = configs(tier)
-    cf.sort(key=lambda c: -(c[1] + 5) ** scorers(c[2])[c[0]][1])
+    cf.sort(key=lambda c: -(len(LATTICE) if c[4] else c[1] + 5) ** scorers(c[2])[c[0]][1])
     return cf
 
 
 def bounds(tier, seed):
-    return {"scorers": list(scorers(1)), "n": "1..6 (quick) / 1..8 (thorough)", "p": [1, 2],
+    return {"scorers": list(scorers(1)), "n": "1..6 (quick) / 1..11 (thorough)", "p": [1, 2],
+            "lattice": {"n": LATTICE_N, "positions": list(LATTICE), "dtypes": ["int64", "int32", "int16", "uint16", "uint8", "int8"],
+                        "scorers": "all with k<=3 and one local score (quick) / all, p = 1 and 2 (thorough)"},
             "box": "[-2, n+2]^k, k = 2 (costs, savings), 3 (change scores), 4 (local anomaly scores)",
             "dtypes": ["int64", "int32 (not for k=4, n>5)", "uint8 (non-negative part)"]}
 
 
 def run_shard(shard):
     acc = core.Acc()
-    name, n, p, which = shard
-    with core.case_timer(600):
-        check_scorer(acc, name, n, p, which)
+    name, n, p, which, lattice = shard
+    with core.case_timer(900):
+        check_scorer(acc, name, n, p, which, lattice)
     return acc
 
 
 def replay(case):
     acc = core.Acc()
-    check_scorer(acc, case["scorer"], case["n"], case["p"], case["data"])
+    check_scorer(acc, case["scorer"], case["n"], case["p"], case["data"], bool(case.get("lattice")))
     want = case.get("cuts")
     if want is not None:
         acc.violations = [v for v in acc.violations if v["case"].get("cuts") == want and v["case"].get("dtype") == case.get("dtype")]
